@@ -326,6 +326,12 @@ def g_specs(thorough):
                     continue
                 specs.append({"kind": kind, "dtype": dtype, "per_axis": per_axis, "rep": rep, "args": G_ACCS[i % len(G_ACCS)]})
                 i += 1
+        # the choice between the full and the reduced form is by (IFM type, bias type): only int16 with an int64 bias is
+        # reduced.  int16 with an int32 bias (valid; the reference then uses the full QuantizeMultiplier pair), and no bias
+        for kind, dtype, bias in (("conv", "int16", "int32"), ("conv_head", "int16", "int32"), ("dw", "int16", "int32"),
+                                  ("fc", "int16", "int32"), ("conv", "int8", "none"), ("fc", "int8", "none"), ("conv", "uint8", "none")):
+            specs.append({"kind": kind, "dtype": dtype, "per_axis": False, "rep": rep, "bias": bias, "args": G_ACCS[i % len(G_ACCS)]})
+            i += 1
         # convolutions sharing ONE filter and ONE bias constant with different output quantisations (siamese / unrolled
         # networks): every operator must get the records of its own output scale
         for j, (dtype, per_axis) in enumerate((("int8", False), ("int8", True), ("uint8", False), ("int16", False), ("int8", False))):
@@ -340,8 +346,8 @@ def g_build(spec):
     operator kind, data type and the float32 scales of the file"""
     import netgen
     import numpy as np
-    rng = random.Random("c09g/%s/%s/%s/%s/%s/%s" % (spec["kind"], spec["dtype"], spec["per_axis"], spec["rep"], spec.get("variant", 0),
-                                                   vlib.seed()))
+    rng = random.Random("c09g/%s/%s/%s/%s/%s/%s/%s" % (spec["kind"], spec["dtype"], spec["per_axis"], spec["rep"], spec.get("variant", 0),
+                                                      spec.get("bias", "default"), vlib.seed()))
     net = netgen.Net("c09_%s_%s" % (spec["kind"], spec["dtype"]))
     dt, kind = spec["dtype"], spec["kind"]
     if kind == "fc":
@@ -380,6 +386,12 @@ def g_build(spec):
     for o in net.ops:
         if o["kind"] not in ("CONV_2D", "DEPTHWISE_CONV_2D", "FULLY_CONNECTED"):
             continue
+        if spec.get("bias") == "int32" and len(o["inputs"]) > 2 and o["inputs"][2] is not None:
+            bt_ = o["inputs"][2]
+            bt_.dtype = "int32"
+            bt_.data = np.asarray(bt_.data, dtype=np.int32)
+        elif spec.get("bias") == "none" and len(o["inputs"]) > 2:
+            o["inputs"] = o["inputs"][:2] + ([None] if o["kind"] == "FULLY_CONNECTED" else [])
         xin, wt, bt = o["inputs"][0], o["inputs"][1], (o["inputs"][2] if len(o["inputs"]) > 2 else None)
         y = o["outputs"][0]
         oc = y.shape[-1]
@@ -497,8 +509,9 @@ def g_check(tier, res_violation_sink, okx):
         sp = next(iter(ms.values()))["spec"]
 
         def tag_of(meta):
-            return "%s%s/%s/%s" % (meta["op"], {"conv_head": "(head)", "siamese": "(shared constants)"}.get(sp["kind"], ""),
-                                   meta["dtype"], "per-channel" if meta["per_axis"] else "per-tensor")
+            return "%s%s/%s/%s%s" % (meta["op"], {"conv_head": "(head)", "siamese": "(shared constants)"}.get(sp["kind"], ""),
+                                     meta["dtype"], "per-channel" if meta["per_axis"] else "per-tensor",
+                                     {"int32": "/int32 bias", "none": "/no bias"}.get(sp.get("bias"), ""))
         tag0 = tag_of(next(iter(ms.values())))
         a = artefacts.load(r) if r.get("status") == "ok" else None
         if not a or not a["npu"] or not a.get("capture") or not a["capture"].get("streams"):
